@@ -12,13 +12,13 @@
 package mcpx
 
 import (
-	"slices"
 	"bufio"
 	"context"
 	"encoding/json"
 	"fmt"
 	"io"
 	"net/http"
+	"slices"
 	"sort"
 	"strings"
 	"sync"
@@ -42,10 +42,10 @@ type c06Msg struct {
 }
 
 type c06Spec struct {
-	Transport string   `json:"transport"` // stdio | http-stateless | http-stateful
-	Msgs      []c06Msg `json:"msgs"`
-	Headers   []string `json:"headers,omitempty"`     // http-stateful: Mcp-Protocol-Version per message ("" = absent)
-	Established bool   `json:"established,omitempty"` // http-stateful: a legacy session is initialized first and its id sent along
+	Transport   string   `json:"transport"` // stdio | http-stateless | http-stateful
+	Msgs        []c06Msg `json:"msgs"`
+	Headers     []string `json:"headers,omitempty"`     // http-stateful: Mcp-Protocol-Version per message ("" = absent)
+	Established bool     `json:"established,omitempty"` // http-stateful: a legacy session is initialized first and its id sent along
 }
 
 var c06Supported = []string{"2026-07-28", "2025-11-25", "2025-06-18", "2025-03-26", "2024-11-05"}
